@@ -406,7 +406,9 @@ fn gen_sauce(rng: &mut Rng) -> SauceD {
         ice: false,
         letter_spacing: rng.bool(),
         aspect_ratio: rng.bool(),
-        font: None,
+        // a third of the documents remember a font name from an earlier load as well (stale: the document's font 0 is what
+        // a writer has to name)
+        font: if rng.chance(1, 3) { Some(rng.pick(&["IBM VGA50", "Amiga Topaz 2", "IBM VGA", "C64 PETSCII unshifted", "no such font"]).to_string()) } else { None },
         // half of the documents remember a file type from an earlier load (a .pcb opened and saved as .icy, ...)
         file_type: if rng.bool() { 0 } else { rng.below(9) as u8 },
     }
